@@ -5,6 +5,7 @@ CONSTANTS
   N = 3
   Types = {1, 2}
   KS = {1, 2}
+  AddOrder = "lib"
 INVARIANT InvCompose
 INVARIANT InvIdleSound
 INVARIANT InvHeaderSafe
